@@ -1564,7 +1564,7 @@ package raft
 //@   loop 1 invariant #k3 r.uncommittedSize == old(r.uncommittedSize) && r.leadTransferee == old(r.leadTransferee)
 //@   loop 1 invariant #k4 r.trk.Progress == old(r.trk.Progress)
 //@   loop 1 invariant #k5 m.Entries.arr != r.raftLog.unstable.entries.arr
-//@   loop 1 invariant #log-kept log_cursors_kept(r.raftLog) && log_last(r.raftLog) == old(log_last(r.raftLog))
+//@   loop 1 invariant #log-kept log_cursors_kept(r.raftLog) && log_last(r.raftLog) == old(log_last(r.raftLog)) && log_last(r.raftLog) + len(m.Entries) < 4611686018427387904
 //@   loop 1 invariant #wf wf_raft(r)
 //@   loop 1 invariant #inlog wf_leader(r)
 //@   loop 1 invariant #termlog term_ge_log(r)
@@ -1574,7 +1574,9 @@ package raft
 //@   loop 1 invariant #untouched-tail forall p int :: {elem(m.Entries, p)} m.Entries.off + iter <= p && p < m.Entries.off + len(m.Entries) ==> elem(m.Entries, p) == oldelem(m.Entries, p)
 //@   loop 1 invariant #types-kept allocframe("F$raftpb.Entry", "C$raftpb.EntryType")
 //@   loop 1 invariant #pending-conf [C10] r.pendingConfIndex == old(r.pendingConfIndex)
-//@        || (exists j int :: 0 <= j && j < iter && r.pendingConfIndex == log_last(r.raftLog) + 1 + j && old(isConfEntry(elem(m.Entries, m.Entries.off + j))))
+//@        || (log_last(r.raftLog) + 1 <= r.pendingConfIndex && r.pendingConfIndex < log_last(r.raftLog) + 1 + iter
+//@            && isConfEntry(oldelem(m.Entries, m.Entries.off + (r.pendingConfIndex - log_last(r.raftLog) - 1)))
+//@            && elem(m.Entries, m.Entries.off + (r.pendingConfIndex - log_last(r.raftLog) - 1)) == oldelem(m.Entries, m.Entries.off + (r.pendingConfIndex - log_last(r.raftLog) - 1)))
 //@   loop 1 invariant #conf-gate [C10] r.pendingConfIndex != old(r.pendingConfIndex) ==> r.disableConfChangeValidation || old(r.pendingConfIndex) <= r.raftLog.applied
 //@   visit 1 invariant #state wf_raft(r) && typestate(r) && hs_monotone(r) && r.Term == old(r.Term) && r.msgs == old(r.msgs) && r.msgsAfterAppend == old(r.msgsAfterAppend)
 //@        && r.raftLog.committed == old(r.raftLog.committed) && r.trk.Progress == old(r.trk.Progress) && r.id == old(r.id)
@@ -1599,6 +1601,8 @@ package raft
 //@        && (old(majActive(&r.trk, r.trk.Voters[0]) && majActive(&r.trk, r.trk.Voters[1])) ? r.state == StateLeader : r.state == StateFollower && r.lead == 0)
 //@        && (forall id uint64 :: has(r.trk.Progress, id) && id != r.id ==> !r.trk.Progress[id].RecentActive)
 //@   ensures #deferred-untouched [C05] old(m.GetType()) != pb.MsgProp ==> r.msgsAfterAppend == old(r.msgsAfterAppend)
+//@   ensures #clock-kept [C17] old(m.GetType() == pb.MsgBeat || m.GetType() == pb.MsgCheckQuorum) && r.state == StateLeader ==> r.electionElapsed == old(r.electionElapsed)
+//@        && r.heartbeatElapsed == old(r.heartbeatElapsed) && r.leadTransferee == old(r.leadTransferee)
 //@   ensures #snap-status-keeps-match [C06] old(m.GetType() == pb.MsgSnapStatus || m.GetType() == pb.MsgUnreachable || m.GetType() == pb.MsgTransferLeader || m.GetType() == pb.MsgHeartbeatResp
 //@        || m.GetType() == pb.MsgBeat || m.GetType() == pb.MsgReadIndex || m.GetType() == pb.MsgForgetLeader || (m.GetType() == pb.MsgAppResp && m.GetReject())) ==> matches_kept(r)
 //@   ensures #match-only-up [C06] old(m.GetType() == pb.MsgAppResp && !m.GetReject() && has(r.trk.Progress, m.GetFrom())) ==> r.trk.Progress == old(r.trk.Progress)
@@ -1614,7 +1618,7 @@ package raft
 //@        : result == ErrProposalDropped && log_last(r.raftLog) == old(log_last(r.raftLog)) && r.msgs == old(r.msgs) && r.msgsAfterAppend == old(r.msgsAfterAppend) && r.uncommittedSize == old(r.uncommittedSize))
 //@   ensures #conf-gate [C10] old(m.GetType()) == pb.MsgProp && r.pendingConfIndex != old(r.pendingConfIndex) ==> (r.disableConfChangeValidation || old(r.pendingConfIndex) <= r.raftLog.applied)
 //@   ensures #conf-index [C10] old(m.GetType()) == pb.MsgProp && r.pendingConfIndex != old(r.pendingConfIndex) ==>
-//@        (exists j int :: 0 <= j && j < old(len(m.Entries)) && r.pendingConfIndex == old(log_last(r.raftLog)) + 1 + j && old(isConfEntry(elem(m.Entries, m.Entries.off + j))))
+//@        old(log_last(r.raftLog)) + 1 <= r.pendingConfIndex && r.pendingConfIndex < old(log_last(r.raftLog)) + 1 + old(len(m.Entries))
 //@   ensures #prop-keeps-cursors [C08 C20] old(m.GetType()) == pb.MsgProp ==> log_cursors_kept(r.raftLog) && r.state == StateLeader
 //@        && (log_last(r.raftLog) == old(log_last(r.raftLog)) ==> r.uncommittedSize == old(r.uncommittedSize))
 //@   ensures #conf-only-on-prop [C10] old(m.GetType()) != pb.MsgProp && r.state == StateLeader ==> r.pendingConfIndex == old(r.pendingConfIndex)
@@ -1719,7 +1723,25 @@ package raft
 //@   ensures #prop-keeps-hardstate [C20 C07 C08] m != nil && old(m.GetType()) == pb.MsgProp && old(m.GetTerm()) == 0 ==> r.Term == old(r.Term) && r.Vote == old(r.Vote) && r.state == old(r.state)
 //@        && log_cursors_kept(r.raftLog) && (log_last(r.raftLog) == old(log_last(r.raftLog)) || (old(r.state) == StateLeader && result == nil && log_last(r.raftLog) == old(log_last(r.raftLog)) + len(m.Entries)))
 //@        && (log_last(r.raftLog) == old(log_last(r.raftLog)) ==> r.uncommittedSize == old(r.uncommittedSize))
+//@   ensures #leader-clock-msgs [C17 C07] m != nil && old(m.GetTerm() == 0 && r.state == StateLeader && (m.GetType() == pb.MsgCheckQuorum || m.GetType() == pb.MsgBeat)) ==> r.Term == old(r.Term) && r.Vote == old(r.Vote)
+//@        && (r.state == StateLeader || (old(m.GetType()) == pb.MsgCheckQuorum && r.state == StateFollower && r.lead == 0))
 //@   ensures #wf m != nil ==> wf_raft(r)
 //@   ensures #typestate m != nil ==> typestate(r)
 //@   ensures #reads-wf [C11] m != nil ==> reads_wf(r)
 //@   ensures #leader-inv [C06] m != nil && r.state == StateLeader ==> wf_leader(r)
+
+//@ -- ------------------------------------------------------------------------------------------
+//@ -- raft.go: logical clock
+
+//@ func raft.raft.tickElection [C07 C17 C02]
+//@   requires node_inv(r) && node_inv_assumed(r)
+//@   requires #a-arith r.electionElapsed < 2147483648
+//@   requires #role r.state != StateLeader
+//@   ensures #hs [C07] hs_monotone(r)
+//@   ensures #no-campaign-before-timeout [C17] old(!(r.promotable() && r.electionElapsed + 1 >= r.randomizedElectionTimeout)) ==> r.Term == old(r.Term) && r.Vote == old(r.Vote) && r.state == old(r.state)
+//@        && r.electionElapsed == old(r.electionElapsed) + 1 && r.msgs == old(r.msgs) && r.msgsAfterAppend == old(r.msgsAfterAppend)
+//@   ensures #term-at-most-plus-one [C02 C07] r.Term == old(r.Term) || (r.Term == old(r.Term) + 1 && r.state == StateCandidate && r.Vote == r.id)
+//@   ensures #wf node_inv(r)
+
+//@ -- tickHeartbeat is not under contract yet: its second Step call needs the assumed node invariants (node_inv_assumed) re-established
+//@ -- by the first, which the Step contract does not provide.
